@@ -157,6 +157,17 @@ theorem no_use_of_torn_down_runner (G : Lock) (S : Nat → Lock) (Other : List L
   stale_rule_sound accesses clearedClassIds 1 registryLockRef objectLockRef G S Other no_stale_reads hother
     tr hconf pre post t o f htr s hrun
 
+/-- the panic clause for the tree, as far as the teardown can cause it: no step of a conforming
+    history dereferences a field `unload` has set to nil (`no_nil_deref_panic` for the tree's table) -/
+theorem no_panic_on_torn_down_runner (G : Lock) (S : Nat → Lock) (Other : List LEv → Thread → Nat → Prop)
+    (hother : ∀ pre t o s, lrun G S LState.init pre = some s → Other pre t o → s.cleared o = false)
+    (tr : List LEv) (hconf : UseConforms accesses clearedClassIds 1 G S Other tr)
+    (pre post : List LEv) (e : LEv) (htr : tr = pre ++ e :: post)
+    (s : LState) (hrun : lrun G S LState.init pre = some s) :
+    panicsAt s e = false :=
+  no_nil_deref_panic accesses clearedClassIds 1 registryLockRef objectLockRef G S Other no_stale_reads hother
+    tr hconf pre post e htr s hrun
+
 /-- the guards of the life-cycle semantics' `clear` step hold in the tree: every clearing write
     holds the runner's own lock, the registry's insert/delete hold the registry lock, and the three
     pointer fields `PsHandler` and the scheduler dereference (`llama`, `model`, `Options`) are cleared
